@@ -4,13 +4,14 @@
       (log = the ghost [consumed]: every packet taken off an outgoing queue, in order, with the carrier it was written
        to; q = what is still queued, per ClientID in queue order: log restricted to a ClientID followed by q restricted
        to it is what WriteTo accepted for it, C05_downstream_exactly_once_in_order)
+   carrierlayer frun <ops>   the same with failing downstream writes: F<i>:<n> (see below)
    carrierlayer trun <timeout> <ops>   the timed model; ops: n | r<i>:x<hex>:<now> | c<i> | w:x<cid>:x<hex>:<now> |
                                        s<i>:<now> | f | v<now> | V<now> (both: the sweeper runs at <now>)
    -> up=... acc=<x<cid>:<conv>:<packets input>:<live>,...> k<i>=... log=<<i>|-:<key>:<queue id>:x<pkt>,...>
       lost=<<queue id>:x<pkt>,...> (left in closed queues)
       (acc = the KCP listener's view of everything read or readable: one element per accepted connection) *)
 From Coq Require Import List NArith ZArith Bool Arith String.
-From Snow Require Import Lib.Wire Model.Encap Model.CarrierLayer Model.GoHeap Model.ClientMap Model.CarrierTimed.
+From Snow Require Import Lib.Wire Model.Encap Model.CarrierLayer Model.GoHeap Model.ClientMap Model.CarrierTimed Model.CarrierFail.
 Import ListNotations.
 Open Scope N_scope.
 
@@ -60,6 +61,28 @@ Definition log_print (l : list (option nat * bytes * bytes)) : bytes :=
 Definition queued_print (l : list (bytes * list bytes)) : bytes :=
   bs "q=" ++ list_print (flat_map (fun '(c, q) => map (fun p => bs "x" ++ hex_encode c ++ bs ":x" ++ hex_encode p) q) l).
 
+(* ---- failing downstream writes (Model/CarrierFail.v)
+   carrierlayer frun <ops>   ops as for run, and F<i>:<n> = carrier i's write loop takes the next packet of its ClientID,
+                             n bytes of its frame reach the connection, the Write fails
+   -> as for run; k<i>'s bytes are ALL the bytes written on the carrier's connection ([full_wire]) *)
+Definition fop_parse (t : bytes) : option fop :=
+  match t with
+  | 70 :: r =>                                            (* F<i>:<n> *)
+      match split_on COLON r with
+      | [i; n] => opt_bind (dec_parse_nat i) (fun i' => opt_bind (dec_parse_nat n) (fun n' => Some (F_SendFail i' n')))
+      | _ => None
+      end
+  | _ => option_map F_Op (sop_parse t)
+  end.
+
+Fixpoint fcarriers_print (s : fstate) (i : nat) (ks : list carrier) : list bytes :=
+  match ks with
+  | [] => []
+  | k :: ks' =>
+      (bs "k" ++ dec_print (N.of_nat i) ++ bs "=" ++ kstate_print (k_state k) ++ bs ":x" ++ hex_encode (k_cid k)
+         ++ bs ":x" ++ hex_encode (full_wire s i k)) :: fcarriers_print s (S i) ks'
+  end.
+
 (* ---- timed *)
 Definition top_parse (t : bytes) : option top :=
   match t with
@@ -103,7 +126,17 @@ Definition lost_print (d : list (nat * list payload)) : bytes :=
 Definition run (args : list bytes) : bytes :=
   match args with
   | [op; ops] =>
-      if beq op (bs "run") then
+      if beq op (bs "frun") then
+        match list_parse fop_parse ops with
+        | Some l =>
+            let fs := frun l in
+            let s := f_s fs in
+            join [SP]
+              ([up_print (delivered s ++ recvq s)] ++ fcarriers_print fs 0 (carriers s)
+               ++ [log_print (consumed s); queued_print (sendqs s)])
+        | None => ERR_BADCASE
+        end
+      else if beq op (bs "run") then
         match list_parse sop_parse ops with
         | Some l =>
             let s := srun l in
